@@ -33,9 +33,13 @@ macro_rules! compare_impl {
                     format!("{} requires at least 2 arguments", $symbol),
                 ));
             }
-            for items in items.windows(2) {
-                let a = ctx.eval(&items[0])?;
-                let b = ctx.eval(&items[1])?;
+            // Evaluate every argument exactly once, left to right.
+            let mut values = Vec::with_capacity(items.len());
+            for item in &items {
+                values.push(ctx.eval(item)?);
+            }
+            for (items, values) in items.windows(2).zip(values.windows(2)) {
+                let (a, b) = (&values[0], &values[1]);
                 if !a.numberp() {
                     return Err(Error::new(
                         crate::ErrorKind::TypeMismatch,
@@ -50,7 +54,7 @@ macro_rules! compare_impl {
                     )
                     .with_trace(items[1].clone()));
                 }
-                if !compare_ops!(std::cmp::PartialOrd::$name)(&a, &b)? {
+                if !compare_ops!(std::cmp::PartialOrd::$name)(a, b)? {
                     return Ok(TulispObject::nil());
                 }
             }
